@@ -695,11 +695,58 @@ func (g *e1func) projectLocals(st *fstate) *fstate {
 			continue
 		}
 		x := expand(fc, 0)
+		if mentionsLocalOf(x, g) {
+			// a context the helper derived for itself (ctx, span := tracer.Start(ctx, ...)) is "some context": the tables never
+			// distinguish contexts except by their construction, which a def fact of the caller's own variable records
+			x = g.anonContexts(x)
+		}
 		if !mentionsLocalOf(x, g) {
 			n.facts[x.Key()] = x
 		}
 	}
 	return n
+}
+
+func (g *e1func) anonContexts(t *Term) *Term {
+	var rec func(t *Term) *Term
+	rec = func(t *Term) *Term {
+		if t.K == "var" && g.isLocalObj(t.Obj) && typeStr(t.Obj.Type()) == "context.Context" {
+			return mk("const", "ctx·")
+		}
+		if len(t.A) == 0 {
+			return t
+		}
+		n := &Term{K: t.K, S: t.S, Obj: t.Obj}
+		for _, a := range t.A {
+			n.A = append(n.A, rec(a))
+		}
+		return n
+	}
+	return rec(t)
+}
+
+var opaqueSeq int
+
+func (g *e1func) opaqueLocals(t *Term) *Term {
+	if g.opaqueID == 0 {
+		opaqueSeq++
+		g.opaqueID = opaqueSeq
+	}
+	var rec func(t *Term) *Term
+	rec = func(t *Term) *Term {
+		if t.K == "var" && g.isLocalObj(t.Obj) {
+			return mk("const", fmt.Sprintf("%s·%d", t.S, g.opaqueID))
+		}
+		if len(t.A) == 0 {
+			return t
+		}
+		n := &Term{K: t.K, S: t.S, Obj: t.Obj}
+		for _, a := range t.A {
+			n.A = append(n.A, rec(a))
+		}
+		return n
+	}
+	return rec(t)
 }
 
 func (f *e1func) chainStr() string {
